@@ -359,10 +359,24 @@ fn check(c: &MapCase, op: Op, obs: &mut Obs) -> CheckResult {
                 run_numeric::<f64>(&c2, op, obs)
             },
         },
-        _ => match c.enc {
-            Enc::F64 => run_typed::<f64>(c, op, obs),
-            Enc::OptF64 => run_typed::<Option<f64>>(c, op, obs),
-            Enc::I32 => run_typed::<i32>(c, op, obs),
+        _ => {
+            // the positional / order operations also see infinite elements (valid, ordered values) in a
+            // quarter of the float cases; the differences are excluded (inf - inf is a null)
+            let mut ci = c.clone();
+            if c.enc != Enc::I32 && c.mask & 0xC0 == 0xC0 {
+                for (i, v) in ci.x.iter_mut().enumerate() {
+                    if v.is_some() && (i * 5 + c.mask as usize) % 4 == 0 {
+                        *v = Some(if (i + c.mask as usize) % 8 < 4 { f64::INFINITY } else { f64::NEG_INFINITY });
+                    }
+                }
+                obs.class("infinite_elements");
+            }
+            let c = &ci;
+            match c.enc {
+                Enc::F64 => run_typed::<f64>(c, op, obs),
+                Enc::OptF64 => run_typed::<Option<f64>>(c, op, obs),
+                Enc::I32 => run_typed::<i32>(c, op, obs),
+            }
         },
     }
 }
